@@ -31,6 +31,10 @@ static void *worker(void *arg) {
             c.obs_len = 0;
             C17_OPS[oi].fn(&c);
         }
+        /* every thread queries the one shared dictionary object */
+        c.arg = C17_OPS[C17_NALL + C17_NREC + t % C17_NSHD].arg;
+        c.obs_len = 0;
+        C17_OPS[C17_NALL + C17_NREC + t % C17_NSHD].fn(&c);
         /* threads 0..5 each own one slot of the shared record */
         if (t < C17_NREC) {
             c.arg = C17_OPS[C17_NALL + t].arg;
